@@ -76,14 +76,21 @@ def run_update_projects(rep, tier, seed, focus, model_ok=True, effort=1, legacy_
     """focus in {'stale','outside'}: which class of byte difference this property owns."""
     from . import impl
     r = common.rng(seed, "rw", focus)
-    n = (45 if tier == "quick" else 700) * effort + len(rwgen.CORPUS_PATTERNS)
+    scripted = rwgen.scripted_specs()
+    n = (45 if tier == "quick" else 700) * effort + len(rwgen.CORPUS_PATTERNS) + len(scripted)
     items, meta = [], []
-    for i in range(n):
+    for i0 in range(n):
+        i = i0 - len(scripted)
         legacy = r.random() < legacy_share
-        force = rwgen.CORPUS_PATTERNS[i] if i < len(rwgen.CORPUS_PATTERNS) else None
+        force = rwgen.CORPUS_PATTERNS[i] if 0 <= i < len(rwgen.CORPUS_PATTERNS) else None
         if force:
             legacy = False
-        spec = rwgen.gen_project(r, impl, legacy=legacy, allow_dup=(focus == "outside"), force=force, max_files=2 if force else 5, tree=True)
+        if i < 0:
+            spec = scripted[i0]
+            legacy = False
+            rep.count("scripted-projects")
+        else:
+            spec = rwgen.gen_project(r, impl, legacy=legacy, allow_dup=(focus == "outside"), force=force, max_files=2 if force else 5, tree=True)
         if not spec["old"]:
             continue
         if any(f.group for f in spec["files"]):
